@@ -1831,3 +1831,30 @@ UNITS["bucket"]["items"].append(
         (r matches Ok(rc) && rc.stored_at@.contains(old(self).node_id)) ==> final(data_store_g)@ == old(data_store_g)@.insert(*key, value@), // @C05/store_path/a_receipt_that_lists_this_node_means_the_value_is_in_its_store
         final(self).node_id == old(self).node_id,
 """})
+
+# --- C13: removal paths of the routing table must give the diversity slots back (RECORDED FINDING: they do not)
+UNITS["ipdiv"]["items"] += [
+    {"impl": "DhtCoreEngine", "fn": "evict_node", "src": "src/dht/core_engine.rs",
+     "drop_macros": ["tracing::warn!", "tracing::debug!", "tracing::error!", "tracing::info!"],
+     "block": {"name": "verif_evict_node_sequential", "of": "DhtCoreEngine::evict_node",
+               "sig": "fn verif_evict_node_sequential(routing_g: &mut KademliaRoutingTable, ip_g: &mut IPDiversityEnforcer, geo_g: &mut GeographicDiversityEnforcer, node_id: &NodeId) -> Result<()>",
+               "why": "await erasure: the awaits are a tokio RwLock acquisition (routing table) and the security-metrics call (dropped); the routing table and the two diversity enforcers are parameters; `reason` is only read by the dropped metrics statement"},
+     "drop_all": [(r"let reason_str = match &reason \{[^{}]*\};\s*self\.security_metrics\.record_eviction\(reason_str\)\.await;\n", "security-metrics bookkeeping (eviction reason counter): no contract mentions it")],
+     "rewrite": [(r"let mut routing = self\.routing_table\.write\(\)\.await;", "let routing = &mut *routing_g;", "lock acquisition replaced by the parameter that stands for the guarded routing table")],
+     "spec": """
+    ensures
+        forall|an: UnifiedIPAnalysis| #[trigger] admitted_with(*old(routing_g), *node_id, an) ==> slots_returned(*final(ip_g), *old(ip_g), an), // @C13/engine/eviction_gives_back_the_ip_diversity_slots_of_the_evicted_node
+        forall|g: GeographicRegion| admitted_region(*old(routing_g), *node_id) == Some(g) ==> #[trigger] region_slot_returned(*final(geo_g), *old(geo_g), g), // @C13/engine/eviction_gives_back_the_region_slot_of_the_evicted_node
+"""},
+    {"impl": "DhtCoreEngine", "fn": "handle_node_failure", "src": "src/dht/core_engine.rs",
+     "block": {"name": "verif_node_failure_sequential", "of": "DhtCoreEngine::handle_node_failure",
+               "sig": "fn verif_node_failure_sequential(routing_g: &mut KademliaRoutingTable, ip_g: &mut IPDiversityEnforcer, geo_g: &mut GeographicDiversityEnforcer, failed_node: NodeId) -> Result<()>",
+               "why": "await erasure: both awaits are tokio RwLock acquisitions (routing table; the replication manager guard is only held); the routing table and the two diversity enforcers are parameters"},
+     "drop_all": [(r"let _replication = self\.replication_manager\.write\(\)\.await;\n", "replication-manager guard that is only held")],
+     "rewrite": [(r"let mut routing = self\.routing_table\.write\(\)\.await;", "let routing = &mut *routing_g;", "lock acquisition replaced by the parameter that stands for the guarded routing table")],
+     "spec": """
+    ensures
+        forall|an: UnifiedIPAnalysis| #[trigger] admitted_with(*old(routing_g), failed_node, an) ==> slots_returned(*final(ip_g), *old(ip_g), an), // @C13/engine/a_failed_node_dropped_from_the_routing_table_gives_back_its_ip_diversity_slots
+        forall|g: GeographicRegion| admitted_region(*old(routing_g), failed_node) == Some(g) ==> #[trigger] region_slot_returned(*final(geo_g), *old(geo_g), g), // @C13/engine/a_failed_node_dropped_from_the_routing_table_gives_back_its_region_slot
+"""},
+]
